@@ -96,6 +96,11 @@ def pool(seed, tier):
     cfgs += [{'kind': 'dwt2f', 'wave': odd, 'mode': 'periodization', 'J': 1, 'shape': [8, 8]},
              {'kind': 'dwt2f', 'wave': odd, 'mode': 'zero', 'J': 2, 'shape': [8, 10]},
              {'kind': 'dwt1f', 'wave': odd, 'mode': 'periodization', 'J': 2, 'shape': [16]}]
+    # pyramids with absent levels spelled as marker tensors (what a skip_hps forward returns): the list and
+    # its entries are the caller's
+    cfgs += [{'kind': 'dti', 'biort': 'near_sym_a', 'qshift': 'qshift_a', 'J': 3, 'shape': [16, 16], 'none_mask': [True, False, False], 'absent_enc': '0-dim'},
+             {'kind': 'dti', 'biort': 'near_sym_b', 'qshift': 'qshift_b', 'J': 3, 'shape': [16, 16], 'none_mask': [False, True, False], 'absent_enc': 'empty'},
+             {'kind': 'dwt2i', 'wave': 'db2', 'mode': 'zero', 'J': 2, 'shape': [12, 12], 'none_mask': [True, False]}]
     # raising calls
     cfgs += [{'kind': 'dwt1f', 'wave': 'db8', 'mode': 'reflect', 'J': 1, 'shape': [5], 'raises': True},
              {'kind': 'dwt2f', 'wave': 'db8', 'mode': 'reflect', 'J': 2, 'shape': [6, 6], 'raises': True}]
@@ -111,6 +116,12 @@ def pool(seed, tier):
             variants.append(('float32', 3, 1, 2))
         for dt, N, C, s in variants:
             specs.append({'id': len(specs), 'cfg': c, 'cfg_id': ci, 'dtype': dt, 'N': N, 'C': C, 'in_seed': 1000 + 7 * ci + s})
+        if ci % 3 == 0:
+            # a call whose data has the other precision than the module it is sent to (the module is shared
+            # with the float64 specs above): whatever that call does - it is refused on this tree - it must do
+            # in the fresh process too, and it must leave the module as it was for the calls that follow
+            specs.append({'id': len(specs), 'cfg': c, 'cfg_id': ci, 'dtype': 'float64', 'arg_dtype': 'float32', 'N': 2, 'C': 2,
+                          'in_seed': 1000 + 7 * ci + 5})
     return specs
 
 
@@ -123,7 +134,7 @@ def tinfo(t):
 
 def make_args(ad, spec):
     import torch
-    dt = torch.float64 if spec['dtype'] == 'float64' else torch.float32
+    dt = torch.float64 if spec.get('arg_dtype', spec['dtype']) == 'float64' else torch.float32
     return ad.rand_args(spec['N'], spec['C'], spec['in_seed'], 'randn', dt)
 
 
